@@ -230,7 +230,7 @@ def get_pickleable_exception(
         pass
 
     nearest = find_pickleable_exception(exc, coder)
-    if nearest:
+    if nearest is not None:
         return nearest
 
     return _UnpickleableExceptionWrapper.from_exception(exc, coder)
